@@ -199,8 +199,9 @@ CLAIMS["C17"] = {
             "finish a 2-node topo_sort in 7 min). A change in those functions is NOT detected by this check. UnionFind::new uses the derived "
             "Default and is not spliced. Trusted: stand-in declarations of slotmap::Key and slotmap::SecondaryMap with a finite-map contract "
             "(insert returns the old value, Index/IndexMut need a present key) -- valid when all keys come from one SlotMap and none was removed "
-            "(SecondaryMap silently ignores stale keys); `==` on keys is structural. No Kani twin exists (CBMC cannot get through SecondaryMap), "
-            "so a violation is reported without a failing input.",
+            "(SecondaryMap silently ignores stale keys); `==` on keys is structural. A bounded Kani twin (vk_uf) runs the same file, whatever its implementation, over an array-backed contract "
+            "double of SecondaryMap (4 keys, <= 3 unions from empty) against an equivalence-closure matrix: it supplies the counterexample, and it "
+            "still decides when find/union are rewritten so that the Verus proof script no longer applies (the Verus unit then reports undecided).",
     "technique": "contract-based deductive verification: Verus on the real bodies (representation invariant, partition view, recursive lemmas, decreases)",
     "design": "DESIGN.md §14.3",
 }
